@@ -8,6 +8,7 @@ import Reamber.Lemmas.SMRows
 import Reamber.Lemmas.SMTimes
 import Reamber.Lemmas.SMText
 import Reamber.Lemmas.SMPair
+import Reamber.Lemmas.SMTempo
 import Reamber.Props.C10
 import Reamber.Generated.SMTables
 
@@ -223,8 +224,8 @@ theorem tmOf_bpms (t0 : Rat) (cs : List BcSnap) : (tmOf t0 cs).map (·.bpm) = cs
 /-- **`tempo_list_keeps_times_partial`** — every `#BPMS` change is in the chart's tempo list at its millisecond
 position.  Proved here for tempo changes that all lie on measure lines: the reseating step is then skipped and the
 tempo list is the list of `(timeAt t0 cs (position of change i), bpm i)`.
-Full statement (not proved here): the same for changes on the 1/48-beat grid inside measures — that needs the
-loop invariant of `reseat_bpm_changes_snap` (C11 `reseat_keeps_times`); the check evaluates it on every case. -/
+The general statement (mid-measure changes) is `tempo_list_keeps_times` below; this one needs no threshold hypotheses
+and gives equality of the whole list. -/
 theorem tempo_list_keeps_times_partial (σf : List Snap → List Nat) (data : Str) (t0 : Rat) (cs : List BcSnap) (ss : Bool)
     (hwf : wfChanges cs = true) (hs : sortedSnaps cs = true) (h0 : firstAtZero cs = true)
     (hline : ∀ c ∈ cs, c.snap.beat = 0)
@@ -261,6 +262,32 @@ theorem tempo_list_keeps_times_partial (σf : List Snap → List Nat) (data : St
     exact stored_times_eq_changeTimes t0 cs hwf hs
   · rw [List.map_map]
     exact tmOf_bpms t0 cs
+
+/-- **`tempo_list_keeps_times`** — every `#BPMS` change is present in the chart's tempo list at its own millisecond
+position, mid-measure changes included.  Under C11's hypotheses on the parsed `#BPMS` list (`Dom`: ascending,
+well-formed, first at beat 0, no remainder inside the 1/1000 "extend" thresholds — true of every list on the
+1/16-beat grid): the tempo list `_read_notes` stores contains the original changes in order, first on first, last on
+last, at most one inserted point per original interval, each at exactly the time obtained by integrating the
+file's beats (`inPts t0 cs`, `interleaveB 0 false`).  Uses C11 `seatFromD_spec`/`reseat_eq_ref` and the lemma that
+the reseated (seated) list is stored at the times obtained by integrating it (`fromBcSnapNoReseat_seated`). -/
+theorem tempo_list_keeps_times (σf : List Snap → List Nat) (data : Str) (t0 : Rat) (cs : List BcSnap) (ss : Bool)
+    (hd : Dom extendThreshold cs) (bpms : List (Rat × Rat)) (notes : List Note)
+    (h : readNotesWith σf data (some t0) (some cs) ss = .ok (bpms, notes)) :
+    interleaveB 0 false (inPts t0 cs) (bpms.map (fun p => (⟨p.1, p.2⟩ : OutPt))) = true := by
+  obtain ⟨tm, htm, hint⟩ := fromBcSnap_reseat_keeps_times t0 cs hd
+  unfold readNotesWith at h
+  simp only [Option.getD_some, bind, Except.bind, Option.isNone_some, Bool.false_eq_true, ↓reduceIte, htm] at h
+  have hb : bpms = tm.map (fun b => (b.offset, b.bpm)) := by
+    repeat' split at h
+    all_goals first
+      | (cases h; rfl)
+      | cases h
+  subst hb
+  rw [List.map_map]
+  exact hint
+
+example : Dom extendThreshold [⟨120, 4, ⟨0, 0, some 4⟩⟩, ⟨60, 4, ⟨1, 1/2, some 4⟩⟩, ⟨200, 4, ⟨1, 25/16, some 4⟩⟩] := by
+  unfold Dom; decide +kernel
 
 /-! ### charts and their headers (text level) -/
 
